@@ -10,7 +10,8 @@
    the query ([consistent]).  Nothing is assumed about the error scripts, the contexts passed by the
    consumers, the interleaving of background drain steps, invalidations, evictions, or the moment
    the server context is cancelled. *)
-From OFGA Require Import Cache.CachedIter Cache.CachedIterProofs Cache.CachedIterAdmit Cache.CachedIterAdmitProofs.
+From OFGA Require Import Cache.CachedIter Cache.CachedIterProofs Cache.CachedIterAdmit Cache.CachedIterAdmitProofs
+  Cache.CachedIterShared Cache.CachedIterSharedProofs.
 Open Scope N_scope.
 
 (* Whenever an entry is written into the cache, it is the WHOLE answer, never a prefix: for every
@@ -138,6 +139,38 @@ Example ex_admission_partial_nonvacuous :
   arun ainit [AArrive 0 7; AArrive 1 7; AProduce 7 None None; AReturn 0 true; AReturn 1 true]
   = [ANone; ANone; ANone; ARes AOk true false false false; ARes AOk true true false false].
 Proof. split; vm_compute; reflexivity. Qed.
+
+(* ---- reference counting of a shared iterator (sharedIterator.clone / Stop) ----
+   Stop is idempotent per instance (the decrement is guarded by the stopped flag), so for every
+   sequence of clone / Stop (repeated Stops included) / timer-Stop operations the reference count
+   equals the number of live instances, and the underlying iterator is stopped exactly when none is
+   left: no consumer can close the iterator under another consumer, or under the storage item that
+   still hands out clones. *)
+Theorem shared_refs_count_live :
+  forall h, let st := sh_run sh_init h in
+  sh_refs st = Z.of_nat (sh_live st) /\ (sh_inner_stopped st = true <-> sh_live st = 0%nat).
+Proof. exact shared_refs_count_live_lemma. Qed.
+Print Assumptions shared_refs_count_live.
+
+Theorem shared_inner_open_while_live :
+  forall h, let st := sh_run sh_init h in
+  (sh_base_stopped st = false \/ existsb negb (sh_clones st) = true) -> sh_inner_stopped st = false.
+Proof. exact shared_inner_open_while_live_lemma. Qed.
+Print Assumptions shared_inner_open_while_live.
+
+(* the guard is necessary: with the decrement outside it, Stop; Stop on one clone closes the
+   underlying iterator while the item is still admitted *)
+Theorem unguarded_stop_breaks_refs :
+  let st := sh_run_unguarded sh_init [SClone; SStop 0; SStop 0] in
+  sh_base_stopped st = false /\ sh_inner_stopped st = true.
+Proof. exact unguarded_stop_breaks_refs_lemma. Qed.
+Print Assumptions unguarded_stop_breaks_refs.
+
+Example ex_double_stop_is_harmless :
+  let st := sh_run sh_init [SClone; SStop 0; SStop 0; SClone; SStop 0; SStop 1; SStop 1] in
+  sh_refs st = 1%Z /\ sh_inner_stopped st = false /\ sh_clones st = [true; true] /\
+  sh_inner_stopped (sh_run st [SStopBase; SStopBase]) = true.
+Proof. vm_compute. repeat split; reflexivity. Qed.
 
 (* ---- non-vacuity: a concrete store, a history with a cancellation in the middle of a read, an
    abandoned iterator, an unrelated error met by the background drain, a flush, and a second read
